@@ -8,6 +8,8 @@ CONSTANTS
   RulesKey = "item"
   IdsIdentifyContent = TRUE
   IncOf <- MCIncOf
+  StatusInc = 0
+  LocalNeedsIncarnationMatch = FALSE
   KeepHigherIncarnation = TRUE
   ReuseUnattested = FALSE
   ReadBackFailOpen = FALSE
